@@ -410,7 +410,7 @@ UFUNCS = {"np.sqrt", "np.abs", "np.cos", "np.sin", "np.arctan2", "np.exp",
           "np.arctan", "np.sinh", "np.cosh", "np.tanh", "np.arcsinh",
           "np.absolute", "np.log", "np.isnan", "np.emath.sqrt", "np.isclose",
           "np.logical_and", "np.logical_or", "np.logical_not", "np.angle",
-          "np.arcsin", "np.power"}
+          "np.arcsin", "np.power", "np.hypot"}
 
 
 class Interp:
@@ -626,6 +626,8 @@ class Interp:
             env[st.target.id] = self.binop(st.op, cur, v)
             return None
         if isinstance(st, ast.If):
+            if self.homt is not None:
+                self.homt.test_why = None
             tv = self.expr(st.test, env)
             if self.homt is not None and isinstance(tv, (AArr, AScal)) \
                     and self.homt.unsteady(tv):
@@ -656,6 +658,11 @@ class Interp:
                 # a genuine data-dependent branch: the driver explores both
                 # outcomes (explore_paths); within one run the same `if`
                 # always goes the same way
+                if self.homt is not None and self.homt.test_why:
+                    # not a validity guard: both arms compute something
+                    self.homt.event(
+                        self, "E8", "which branch is computed is decided by "
+                        + self.homt.test_why)
                 key = id(st)
                 if key not in self.choices:
                     self.choices[key] = True
@@ -1278,6 +1285,14 @@ class Interp:
                 return a == b
             if isinstance(op, ast.NotEq):
                 return a != b
+        # a symbolic size against a number: not known here; the driver
+        # explores both outcomes
+        for x, y in ((a, b), (b, a)):
+            if isinstance(x, str) and "." not in x and not x.startswith("<") \
+                    and isinstance(y, int) and not isinstance(y, bool) \
+                    and isinstance(op, (ast.Eq, ast.NotEq, ast.Lt, ast.LtE,
+                                        ast.Gt, ast.GtE)):
+                return ABool()
         if isinstance(a, int) and isinstance(b, int):
             return {ast.Eq: a == b, ast.NotEq: a != b, ast.Lt: a < b,
                     ast.LtE: a <= b, ast.Gt: a > b, ast.GtE: a >= b}[type(op)]
@@ -1383,7 +1398,20 @@ class Interp:
             fv0 = env[e.func.id]
             return self.call_afunc(fv0, [self.expr(a, env) for a in e.args],
                                    self.keywords(e, env))
-        args = [self.expr(a, env) for a in e.args]
+        args = []
+        for a in e.args:
+            if isinstance(a, ast.Starred):
+                v = self.expr(a.value, env)
+                if isinstance(v, AArr) and v.shape and isinstance(
+                        v.shape[0], int):
+                    args.extend(AArr(v.shape[1:], v.hom) if len(v.shape) > 1
+                                else ANpScal() for _ in range(v.shape[0]))
+                elif isinstance(v, (tuple, list)):
+                    args.extend(v)
+                else:
+                    raise Unsupported("starred argument of unknown length")
+            else:
+                args.append(self.expr(a, env))
         kw = self.keywords(e, env)
         res = self._call_tail(e, env, name, args, kw)
         if self.homt is not None:
@@ -1693,6 +1721,16 @@ class Interp:
             return AArr(tuple(d for i, d in enumerate(sa) if i not in ax_a)
                         + tuple(d for j, d in enumerate(sb)
                                 if j not in ax_b))
+        if name == "np.diagonal" and isinstance(args[0], AArr):
+            sh = args[0].shape
+            if len(sh) < 2:
+                raise ShapeError(f"diagonal of an array of shape {sh}")
+            a1 = kw.get("axis1", args[2] if len(args) > 2 else 0)
+            a2 = kw.get("axis2", args[3] if len(args) > 3 else 1)
+            ax = _norm_axes((a1, a2), len(sh))
+            d = sh[ax[0]]
+            out = tuple(x for i, x in enumerate(sh) if i not in ax)
+            return AArr(out + (d,))
         if name == "np.trace" and isinstance(args[0], AArr):
             sh = args[0].shape
             if len(sh) < 2:
